@@ -16,7 +16,10 @@
 //! the recursion limit; (iv) "variations": FeatureVariations x tuples at and around the range edges;
 //! "reach": contextual rules at / next to the start of the run whose nested ligature consumes glyphs beyond the
 //! matched input, strings over {a,b,m1} up to length 7 (quick) / 8 (thorough);
-//! "misc": modulo-65536 deltas, no GDEF, script selection.
+//! "misc": modulo-65536 deltas, no GDEF, script selection;
+//! (v) "frac": FeatureMask::FRAC on the Features::Mask path (lookups of 'frac' only inside ASCII fractions): lookup lists
+//! over ccmp (1->2), liga (2->1, 3->1) and frac (single, 2->1, 1->2) lookups in every relative order x all texts
+//! prefix + fraction + between + second fraction + tail, against a piece-wise reference on the original text.
 //! Seams: gsub::apply + Features::Custom on new_layout_cache(LayoutTable<GSUB>) (every encoding with <= 2
 //! non-default choices among Coverage 1/2, ClassDef 1/2, Extension), gsub::apply + Features::Mask, and
 //! Font::shape on a wrapped sfnt.
@@ -1837,6 +1840,660 @@ fn run_prog(ctx: &Ctx, p: &Prog, thorough: bool, all_strings: &[Vec<G>], reach_s
 }
 
 // ---------------------------------------------------------------------------------------------------
+// class "frac": FeatureMask::FRAC on the Features::Mask path of the default shaper
+// ---------------------------------------------------------------------------------------------------
+//
+// allsorts does not apply the lookups of 'frac' to the whole run: the run is cut at ASCII fractions (a maximal run of
+// ASCII digits, '/', a maximal run of ASCII digits, decided on the characters the glyphs came from); a fraction gets the
+// lookups of the whole mask, the text between fractions the lookups of the mask without 'frac'. The reference below
+// cuts the ORIGINAL text by that rule and runs the reference interpreter on every piece on its own, so no cursor /
+// length arithmetic over the rewritten run is shared with the implementation. All lookups of the class are single,
+// multiple or ligature substitutions whose ligatures stay within letters or within digits: no rule can look across
+// a cut (checked by `frac_assert_local`), which makes the piece-wise reference exact.
+
+const FG_SPACE: G = 1;
+const FG_F: G = 2;
+const FG_I: G = 3;
+const FG_A: G = 4;
+const FG_ONE: G = 5;
+const FG_TWO: G = 6;
+const FG_SLASH: G = 7;
+const FG_FI: G = 8;
+const FG_FFI: G = 9;
+const FG_A1: G = 10;
+const FG_A2: G = 11;
+const FG_ONE_N: G = 12;
+const FG_TWO_N: G = 13;
+const FG_FRACTION: G = 14;
+const FG_ONEONE: G = 15;
+const FG_TWO_B: G = 16;
+const FG_TWO_C: G = 17;
+const FRAC_NGLYPHS: u16 = 18;
+
+const FRAC_CMAP: [(u32, u16); 7] =
+    [(' ' as u32, FG_SPACE), ('f' as u32, FG_F), ('i' as u32, FG_I), ('a' as u32, FG_A), ('1' as u32, FG_ONE), ('2' as u32, FG_TWO), ('/' as u32, FG_SLASH)];
+
+const T_CCMP: u32 = tag(b"ccmp");
+const T_FRAC: u32 = tag(b"frac");
+const T_NUMR: u32 = tag(b"numr");
+const T_LOCL: u32 = tag(b"locl");
+const T_RLIG: u32 = tag(b"rlig");
+
+fn frac_gid(c: char) -> G {
+    FRAC_CMAP.iter().find(|e| e.0 == c as u32).map(|e| e.1).unwrap_or(0)
+}
+
+fn frac_glyph_name(g: G) -> String {
+    const NAMES: [&str; FRAC_NGLYPHS as usize] = [
+        ".notdef", "space", "f", "i", "a", "one", "two", "slash", "f_i", "f_f_i", "a.base", "a.top", "one.numr", "two.numr", "fraction", "one_one", "two.b", "two.c",
+    ];
+    NAMES.get(g as usize).map(|s| s.to_string()).unwrap_or_else(|| format!("gid{}", g))
+}
+
+/// 1 = made from letters, 2 = made from digits, 3 = made from the slash, 0 = space / .notdef
+fn frac_glyph_class(g: G) -> u8 {
+    match g {
+        FG_F | FG_I | FG_A | FG_FI | FG_FFI | FG_A1 | FG_A2 => 1,
+        FG_ONE | FG_TWO | FG_ONE_N | FG_TWO_N | FG_ONEONE | FG_TWO_B | FG_TWO_C => 2,
+        FG_SLASH | FG_FRACTION => 3,
+        _ => 0,
+    }
+}
+
+/// the lookups of the class, by letter; the feature a lookup belongs to follows from the letter
+fn frac_lookup(kind: char) -> (u32, Lookup) {
+    let z: Fl = (0, 0);
+    match kind {
+        // ccmp: a -> a.base a.top (1 -> 2)
+        'C' => (T_CCMP, lk(z, vec![Sub::Multiple { cov: vec![FG_A], seqs: vec![vec![FG_A1, FG_A2]] }])),
+        // ccmp that also decomposes a digit: two -> two two.c (changes the length of a fraction as well)
+        'D' => (T_CCMP, lk(z, vec![Sub::Multiple { cov: vec![FG_A, FG_TWO], seqs: vec![vec![FG_A1, FG_A2], vec![FG_TWO, FG_TWO_C]] }])),
+        // liga: f f i -> f_f_i (3 -> 1), f i -> f_i (2 -> 1)
+        'L' => (T_LIGA, lk(z, vec![lig(vec![FG_F], vec![vec![(FG_FFI, vec![FG_F, FG_I]), (FG_FI, vec![FG_I])]])])),
+        // frac: digits and the slash change, so the output shows which glyphs the fraction lookups visited
+        'S' => (T_FRAC, lk(z, vec![Sub::Single2 { cov: vec![FG_ONE, FG_TWO, FG_SLASH], subst: vec![FG_ONE_N, FG_TWO_N, FG_FRACTION] }])),
+        // frac: one one -> one_one (the fraction shrinks)
+        'G' => (T_FRAC, lk(z, vec![lig(vec![FG_ONE], vec![vec![(FG_ONEONE, vec![FG_ONE])]])])),
+        // frac: two -> two two.b (the fraction grows)
+        'M' => (T_FRAC, lk(z, vec![Sub::Multiple { cov: vec![FG_TWO], seqs: vec![vec![FG_TWO, FG_TWO_B]] }])),
+        // numr: present in the font, never enabled by FeatureMask::FRAC
+        'N' => (T_NUMR, lk(z, vec![Sub::Single2 { cov: vec![FG_ONE, FG_TWO], subst: vec![FG_TWO, FG_ONE] }])),
+        _ => panic!("machinery: unknown frac lookup kind {:?}", kind),
+    }
+}
+
+struct FracProg {
+    name: String,
+    gsub: Gsub,
+    /// the whole-font seam is exercised in the quick tier too (thorough: every program)
+    shape_quick: bool,
+}
+
+/// `order` = the LookupList, one letter per lookup; `shared_with_liga` lists the frac single substitution in 'liga' too;
+/// `frac_in_langsys` = false keeps the 'frac' feature in the FeatureList but out of the language system
+fn frac_prog(order: &str, script: u32, shared_with_liga: bool, frac_in_langsys: bool) -> FracProg {
+    let mut lookups = Vec::new();
+    let mut by_tag: BTreeMap<u32, Vec<u16>> = BTreeMap::new();
+    for (i, kind) in order.chars().enumerate() {
+        let (t, l) = frac_lookup(kind);
+        lookups.push(l);
+        by_tag.entry(t).or_default().push(i as u16);
+        if shared_with_liga && kind == 'S' {
+            by_tag.entry(T_LIGA).or_default().push(i as u16);
+        }
+    }
+    // the FeatureList sorted by tag (BTreeMap order of the big-endian tag values)
+    let features: Vec<Feature> = by_tag.into_iter().map(|(t, mut l)| { l.sort(); Feature { tag: t, lookups: l } }).collect();
+    let langsys: Vec<u16> = (0..features.len() as u16).filter(|&i| frac_in_langsys || features[i as usize].tag != T_FRAC).collect();
+    let mut name = format!("frac: lookups[{}] script={}", order, otmodel::tag_str(script));
+    if shared_with_liga {
+        name.push_str(" S-also-in-liga");
+    }
+    if !frac_in_langsys {
+        name.push_str(" frac-not-in-langsys");
+    }
+    FracProg { name, gsub: Gsub { script, langsys, features, lookups, variations: None }, shape_quick: true }
+}
+
+/// thorough: every arrangement of {none, ccmp, liga, both (two orders), with / without a digit in ccmp} with the fraction
+/// lookups {none, S, G S, M S} before, after, between the others, and around the others; quick: the orders without a
+/// digit in ccmp except D L, the fraction lookups before or after the others
+fn cat_frac(thorough: bool) -> Vec<FracProg> {
+    let others: &[&str] = if thorough { &["", "C", "D", "L", "CL", "LC", "DL", "LD"] } else { &["", "C", "L", "CL", "DL"] };
+    let fracs = ["", "S", "GS", "MS"];
+    let mut orders: Vec<String> = Vec::new();
+    for o in others {
+        for f in fracs {
+            if o.is_empty() && f.is_empty() {
+                continue;
+            }
+            orders.push(format!("{}{}", f, o));
+            if o.is_empty() || f.is_empty() {
+                continue;
+            }
+            orders.push(format!("{}{}", o, f));
+            if thorough && o.len() == 2 {
+                orders.push(format!("{}{}{}", &o[..1], f, &o[1..]));
+            }
+            if thorough && f.len() == 2 {
+                orders.push(format!("{}{}{}", &f[..1], o, &f[1..]));
+            }
+        }
+    }
+    let mut v: Vec<FracProg> = orders.iter().map(|o| frac_prog(o, T_DFLT, false, true)).collect();
+    for p in v.iter_mut() {
+        p.shape_quick = ["lookups[SCL]", "lookups[CLS]", "lookups[GSDL]", "lookups[DLMS]"].iter().any(|o| p.name.contains(o));
+    }
+    // the frac lookup is also a lookup of an ordinary feature: it then belongs to both lookup sets
+    v.push(frac_prog("CLS", T_DFLT, true, true));
+    v.push(frac_prog("SDL", T_DFLT, true, true));
+    // 'numr' in the font: FeatureMask::FRAC stands for the tag 'frac' alone
+    v.push(frac_prog("CLSN", T_DFLT, false, true));
+    v.push(frac_prog("NSLC", T_DFLT, false, true));
+    // 'frac' in the FeatureList but not in the language system: nothing of it may be applied
+    v.push(frac_prog("CLS", T_DFLT, false, false));
+    // a 'latn' script record instead of DFLT
+    v.push(frac_prog("CLS", T_LATN, false, true));
+    v.push(frac_prog("GSLD", T_LATN, false, true));
+    v
+}
+
+/// machinery: no rule of the class can see across a cut. Substitutions keep the class of a glyph (letter / digit /
+/// slash), ligatures combine glyphs of one class (letters or digits); a cut always separates a digit from a non-digit
+/// (the digit runs of a fraction are maximal), so neither kind of ligature can have components on both sides.
+fn frac_assert_local(p: &FracProg) {
+    for l in &p.gsub.lookups {
+        assert_eq!(l.flag, 0, "machinery: frac lookups carry no flags");
+        for s in &l.subs {
+            match s {
+                Sub::Single2 { cov, subst } => {
+                    assert!(cov.iter().zip(subst).all(|(a, b)| frac_glyph_class(*a) == frac_glyph_class(*b) && frac_glyph_class(*a) != 0), "machinery: {}", p.name)
+                }
+                Sub::Multiple { cov, seqs } => assert!(
+                    cov.iter().zip(seqs).all(|(a, q)| !q.is_empty() && frac_glyph_class(*a) != 0 && q.iter().all(|b| frac_glyph_class(*b) == frac_glyph_class(*a))),
+                    "machinery: {}",
+                    p.name
+                ),
+                Sub::Ligature { cov, sets } => {
+                    for (a, set) in cov.iter().zip(sets) {
+                        let c = frac_glyph_class(*a);
+                        assert!(c == 1 || c == 2, "machinery: {}", p.name);
+                        assert!(set.iter().all(|(l, comps)| frac_glyph_class(*l) == c && comps.iter().all(|b| frac_glyph_class(*b) == c)), "machinery: {}", p.name);
+                    }
+                }
+                _ => panic!("machinery: lookup type not admitted in the frac class: {}", p.name),
+            }
+        }
+    }
+}
+
+/// Pieces of the text as [start, end, is a fraction): the first '/' of the remaining text with the maximal runs of
+/// ASCII digits on both sides is a fraction when both runs are non-empty; the text before it is an ordinary piece and
+/// the search goes on behind the fraction. When the first '/' is not part of a fraction the rest is one ordinary piece.
+fn frac_segments(text: &[char]) -> Vec<(usize, usize, bool)> {
+    let n = text.len();
+    let mut out = Vec::new();
+    let mut i = 0;
+    while i < n {
+        let slash = match (i..n).find(|&k| text[k] == '/') {
+            Some(k) => k,
+            None => {
+                out.push((i, n, false));
+                break;
+            }
+        };
+        let mut s = slash;
+        while s > i && text[s - 1].is_ascii_digit() {
+            s -= 1;
+        }
+        let mut e = slash + 1;
+        while e < n && text[e].is_ascii_digit() {
+            e += 1;
+        }
+        if s < slash && slash + 1 < e {
+            if s > i {
+                out.push((i, s, false));
+            }
+            out.push((s, e, true));
+            i = e;
+        } else {
+            out.push((i, n, false));
+            break;
+        }
+    }
+    out
+}
+
+#[derive(Clone, Copy, PartialEq, Eq, Debug)]
+enum FracMode {
+    /// Features::Mask(FeatureMask::default())
+    Default,
+    /// Features::Mask(FeatureMask::default() | FeatureMask::FRAC)
+    DefaultFrac,
+    /// Features::Mask(FeatureMask::FRAC)
+    FracOnly,
+}
+
+impl FracMode {
+    fn id(&self) -> &'static str {
+        match self {
+            FracMode::Default => "default",
+            FracMode::DefaultFrac => "default|FRAC",
+            FracMode::FracOnly => "FRAC",
+        }
+    }
+    fn from_id(s: &str) -> Option<FracMode> {
+        [FracMode::Default, FracMode::DefaultFrac, FracMode::FracOnly].into_iter().find(|m| m.id() == s)
+    }
+    fn mask(&self) -> FeatureMask {
+        match self {
+            FracMode::Default => FeatureMask::default(),
+            FracMode::DefaultFrac => FeatureMask::default() | FeatureMask::FRAC,
+            FracMode::FracOnly => FeatureMask::FRAC,
+        }
+    }
+    fn frac(&self) -> bool {
+        *self != FracMode::Default
+    }
+    /// the feature tags of the mask apart from 'frac'
+    fn ordinary_tags(&self) -> &'static [u32] {
+        match self {
+            FracMode::FracOnly => &[],
+            _ => &[T_CALT, T_CCMP, T_CLIG, T_LIGA, T_LOCL, T_RLIG],
+        }
+    }
+}
+
+struct FracRef {
+    run: Vec<Gl>,
+    fired: bool,
+    fractions: usize,
+    /// an ordinary piece in front of a fraction changed its length
+    shifted: bool,
+    /// a fraction changed its length and text follows
+    resized: bool,
+}
+
+/// memo of the reference interpreter's results for the pieces of one program: (piece, fraction?, mask) -> (run with
+/// piece-relative position ids, something fired). A pure function of its key; never iterated.
+type FracMemo = std::collections::HashMap<(Vec<char>, bool, u8), (Vec<Gl>, bool)>;
+
+/// the reference: every piece on its own through the reference interpreter, with 'frac' enabled inside fractions only
+fn frac_reference(p: &FracProg, text: &[char], mode: FracMode, memo: &mut FracMemo) -> FracRef {
+    let segs = if mode.frac() { frac_segments(text) } else { vec![(0, text.len(), false)] };
+    let mut r = FracRef { run: Vec::new(), fired: false, fractions: 0, shifted: false, resized: false };
+    for (k, &(s, e, is_fraction)) in segs.iter().enumerate() {
+        let piece = || -> (Vec<Gl>, bool) {
+            let mut feats: Vec<(u32, usize)> = mode.ordinary_tags().iter().map(|t| (*t, 0)).collect();
+            if is_fraction {
+                feats.push((T_FRAC, 0));
+            }
+            let input: Vec<Gl> = (s..e).map(|i| Gl::input(frac_gid(text[i]), (i - s) as u32)).collect();
+            let res = apply_gsub(&p.gsub, &Gdef::default(), T_LATN, &feats, None, &input, Variant::default(), 0);
+            let fired = res.touched & T_FIRED != 0;
+            (res.run, fired)
+        };
+        // whole texts do not repeat: only the pieces of the FRAC masks are worth remembering
+        let computed;
+        let (run, fired): (&Vec<Gl>, bool) = if mode.frac() {
+            let e = memo.entry((text[s..e].to_vec(), is_fraction, mode as u8)).or_insert_with(piece);
+            (&e.0, e.1)
+        } else {
+            computed = piece();
+            (&computed.0, computed.1)
+        };
+        r.fired |= fired;
+        if is_fraction {
+            r.fractions += 1;
+            r.resized |= run.len() != e - s && e < text.len();
+        } else {
+            r.shifted |= run.len() != e - s && k + 1 < segs.len();
+        }
+        r.run.extend(run.iter().map(|g| Gl { chars: g.chars.iter().map(|id| id + s as u32).collect(), ..g.clone() }));
+    }
+    r
+}
+
+/// the reference run with the characters of the text in place of position ids
+fn frac_translate(run: &[Gl], text: &[char]) -> Vec<Gl> {
+    run.iter().map(|g| Gl { chars: g.chars.iter().map(|id| text[*id as usize] as u32).collect(), comp: None, ..g.clone() }).collect()
+}
+
+fn frac_run_json(r: &[Gl]) -> J {
+    J::Array(
+        r.iter()
+            .map(|g| {
+                let mut s = frac_glyph_name(g.gid);
+                s.push('<');
+                s.push_str(&g.chars.iter().map(|c| char::from_u32(*c).map(|c| c.to_string()).unwrap_or_else(|| format!("U+{:04X}", c))).collect::<String>());
+                s.push('>');
+                if g.lig {
+                    s.push_str(" LIGATURE");
+                }
+                if g.dup {
+                    s.push_str(" MULTI_SUBST_DUP");
+                }
+                json!(s)
+            })
+            .collect(),
+    )
+}
+
+struct FracLoaded {
+    gsub_bytes: Vec<u8>,
+    cache: LayoutCache<GSUB>,
+}
+
+fn frac_load(p: &FracProg, acc: &mut Acc) -> Option<FracLoaded> {
+    let gsub_bytes = p.gsub.encode(&Enc::default());
+    let parsed = guard(|| ReadScope::new(&gsub_bytes).read::<LayoutTable<GSUB>>().map(new_layout_cache).map_err(|e| format!("GSUB: {:?}", e)));
+    match parsed {
+        Err(pi) => {
+            acc.report(&panic_key(&pi), || json!({"program": p.name, "GSUB": hex(&gsub_bytes), "panic": pi.msg, "at": pi.loc(), "seam": "table parsing"}));
+            None
+        }
+        Ok(Err(e)) => {
+            acc.report("C04:mismatch:valid-table-rejected", || json!({"program": p.name, "GSUB": hex(&gsub_bytes), "error": e}));
+            None
+        }
+        Ok(Ok(cache)) => Some(FracLoaded { gsub_bytes, cache }),
+    }
+}
+
+fn frac_real_apply(ld: &FracLoaded, mode: FracMode, text: &[char]) -> Observed {
+    let r = guard(|| {
+        let mut glyphs: Vec<RawGlyph<()>> = text.iter().map(|&c| raw_glyph(frac_gid(c), c)).collect();
+        let res = gsub::apply(0, &ld.cache, None, T_LATN, None, &Features::Mask(mode.mask()), None, FRAC_NGLYPHS, &mut glyphs);
+        (res.err().map(|e| format!("{:?}", e)), glyphs)
+    });
+    match r {
+        Err(pi) => Observed::Panic(pi),
+        Ok((err, glyphs)) => Observed::Done { err, run: observe(&glyphs) },
+    }
+}
+
+fn frac_real_shape(font: &mut FontT<'_>, mode: FracMode, text: &[char]) -> Observed {
+    let text: String = text.iter().collect();
+    let features = Features::Mask(mode.mask());
+    let r = guard(|| {
+        let glyphs = font.map_glyphs(&text, T_LATN, MatchingPresentation::NotRequired);
+        font.shape(glyphs, T_LATN, None, &features, None, false)
+    });
+    match r {
+        Err(pi) => Observed::Panic(pi),
+        Ok(Ok(infos)) => Observed::Done { err: None, run: observe(&infos.iter().map(|i| i.glyph.clone()).collect::<Vec<_>>()) },
+        Ok(Err((e, infos))) => Observed::Done { err: Some(format!("{:?}", e)), run: observe(&infos.iter().map(|i| i.glyph.clone()).collect::<Vec<_>>()) },
+    }
+}
+
+fn frac_witness(p: &FracProg, ld: &FracLoaded, text: &[char], mode: FracMode, seam: Seam, thorough: bool, expected: &[Gl]) -> J {
+    let s: String = text.iter().collect();
+    json!({
+        "program": p.name, "class": "frac",
+        "seam": match seam { Seam::Shape => "Font::map_glyphs + Font::shape(Features::Mask) on a wrapped sfnt", _ => "gsub::apply(Features::Mask) on new_layout_cache(LayoutTable<GSUB>), glyph_origin = Char(c)" },
+        "feature_mask": mode.id(), "script_requested": "latn",
+        "lookups": p.gsub.lookups.iter().map(|l| format!("{:?}", l)).collect::<Vec<_>>(),
+        "glyph_names": (0..FRAC_NGLYPHS).map(frac_glyph_name).collect::<Vec<_>>(),
+        "features": p.gsub.features.iter().map(|f| format!("{}{:?}", otmodel::tag_str(f.tag), f.lookups)).collect::<Vec<_>>(),
+        "langsys_feature_indices": p.gsub.langsys, "script": otmodel::tag_str(p.gsub.script),
+        "GSUB": hex(&ld.gsub_bytes), "cmap": FRAC_CMAP.iter().map(|e| format!("{:?}>{}", char::from_u32(e.0).unwrap(), e.1)).collect::<Vec<_>>(),
+        "text": s,
+        "pieces": (if mode.frac() { frac_segments(text) } else { vec![(0, text.len(), false)] }).iter()
+            .map(|&(a, b, f)| format!("{:?} {}", text[a..b].iter().collect::<String>(), if f { "fraction: lookups of the mask" } else { "lookups of the mask without frac" })).collect::<Vec<_>>(),
+        "expected": frac_run_json(&frac_translate(expected, text)),
+        "replay": {"class": "frac", "program": p.name, "text": s, "mask": mode.id(), "seam": seam.id(), "thorough": thorough},
+    })
+}
+
+/// decide one observation of the frac class
+fn frac_judge(acc: &mut Acc, p: &FracProg, ld: &FracLoaded, text: &[char], mode: FracMode, seam: Seam, thorough: bool, reference: &FracRef, obs: Observed) -> Option<Vec<Gl>> {
+    acc.evals += 1;
+    let wit = || frac_witness(p, ld, text, mode, seam, thorough, &reference.run);
+    let (err, run) = match obs {
+        Observed::Panic(pi) => {
+            acc.report(&panic_key(&pi), || {
+                let mut w = wit();
+                w["panic"] = json!(pi.msg);
+                w["at"] = json!(pi.loc());
+                w
+            });
+            return None;
+        }
+        Observed::Done { err, run } => (err, run),
+    };
+    let part = if mode.frac() { "frac" } else { "frac:mask-without-FRAC" };
+    if let Some(e) = err {
+        acc.report(&format!("C04:mismatch:{}:error-returned", part), || {
+            let mut w = wit();
+            w["error"] = json!(e);
+            w["observed"] = frac_run_json(&run);
+            w
+        });
+        return Some(run);
+    }
+    let exp = &reference.run;
+    let kind = if exp.len() != run.len() || exp.iter().zip(&run).any(|(e, o)| e.gid != o.gid) {
+        Some("glyphs")
+    } else if exp.iter().zip(&run).any(|(e, o)| e.chars.len() != o.chars.len() || e.chars.iter().zip(&o.chars).any(|(id, c)| text[*id as usize] as u32 != *c)) {
+        Some("unicodes")
+    } else if exp.iter().zip(&run).any(|(e, o)| e.lig != o.lig || e.dup != o.dup) {
+        Some("ligature-or-duplicate-flag")
+    } else {
+        None
+    };
+    if let Some(kind) = kind {
+        acc.report(&format!("C04:mismatch:{}:{}", part, kind), || {
+            let mut w = wit();
+            w["observed"] = frac_run_json(&run);
+            w
+        });
+    }
+    Some(run)
+}
+
+const FRAC_MODES: [FracMode; 3] = [FracMode::Default, FracMode::DefaultFrac, FracMode::FracOnly];
+
+fn frac_cases(ctx: Option<&Ctx>, acc: &mut Acc, p: &FracProg, thorough: bool, ld: &FracLoaded, mut font: Option<&mut FontT<'_>>, texts: &[Vec<char>], only: Option<(FracMode, Seam)>, tallies: &mut [u64; 3]) {
+    let pid = H::new().str(&p.name).get();
+    let mut memo = FracMemo::new();
+    for text in texts {
+        for mode in FRAC_MODES {
+            let want = |seam: Seam| only.map_or(true, |o| o == (mode, seam));
+            let reference = frac_reference(p, text, mode, &mut memo);
+            if reference.fired {
+                acc.nontrivial += 1;
+            }
+            if mode.frac() {
+                tallies[0] += (reference.fractions > 0) as u64;
+                tallies[1] += reference.shifted as u64;
+                tallies[2] += reference.resized as u64;
+            }
+            let ch = H::new().u64(pid).str(&text.iter().collect::<String>()).str(mode.id());
+            if want(Seam::Mask) {
+                let obs = frac_real_apply(ld, mode, text);
+                let run = frac_judge(acc, p, ld, text, mode, Seam::Mask, thorough, &reference, obs);
+                if let (Some(ctx), Some(run)) = (ctx, run) {
+                    ctx.mark_outcome(H::new().u64(hash_run(&run)).str("frac").get());
+                    if reference.fired {
+                        ctx.mark_nontrivial(ch.get());
+                        if acc.sample.is_none() && reference.shifted && reference.resized && reference.fractions > 1 {
+                            let mut w = frac_witness(p, ld, text, mode, Seam::Mask, thorough, &reference.run);
+                            let o = w.as_object_mut().unwrap();
+                            o.remove("replay");
+                            o.remove("glyph_names");
+                            w["observed"] = frac_run_json(&run);
+                            acc.sample = Some((ch.get(), w));
+                        }
+                    }
+                }
+            }
+            // the whole-font seam for the mask under test
+            if mode == FracMode::DefaultFrac && want(Seam::Shape) && (thorough || p.shape_quick || only.is_some()) {
+                if let Some(f) = font.as_deref_mut() {
+                    let obs = frac_real_shape(f, mode, text);
+                    frac_judge(acc, p, ld, text, mode, Seam::Shape, thorough, &reference, obs);
+                }
+            }
+        }
+    }
+}
+
+fn frac_font_bytes(ld: &FracLoaded) -> Vec<u8> {
+    otmodel::tables::minimal_font(FRAC_NGLYPHS, &FRAC_CMAP, &[(tag(b"GSUB"), ld.gsub_bytes.clone())])
+}
+
+fn run_frac_prog(ctx: Option<&Ctx>, p: &FracProg, thorough: bool, texts: &[Vec<char>], only: Option<(FracMode, Seam)>) -> (Acc, [u64; 3]) {
+    let mut acc = Acc { class: "frac", ..Default::default() };
+    let mut tallies = [0u64; 3];
+    frac_assert_local(p);
+    let ld = match frac_load(p, &mut acc) {
+        Some(ld) => ld,
+        None => return (acc, tallies),
+    };
+    let fb = frac_font_bytes(&ld);
+    let r = with_font(&fb, |f| frac_cases(ctx, &mut acc, p, thorough, &ld, Some(f), texts, only, &mut tallies));
+    if let Err(e) = r {
+        acc.report("C04:mismatch:wrapped-font-rejected", || json!({"program": p.name, "error": e, "GSUB": hex(&ld.gsub_bytes)}));
+    }
+    acc.states = acc.evals + 2;
+    (acc, tallies)
+}
+
+struct FracBounds {
+    prefix_alphabet: &'static [char],
+    prefix_max: usize,
+    fractions: &'static [&'static str],
+    between_alphabet: &'static [char],
+    between_max: usize,
+    second_fractions: &'static [&'static str],
+    tails: &'static [&'static str],
+}
+
+fn frac_bounds(thorough: bool) -> FracBounds {
+    FracBounds {
+        prefix_alphabet: &['f', 'i', 'a', ' ', '1'],
+        prefix_max: if thorough { 4 } else { 3 },
+        fractions: &["", "1/2", "11/2", "1/21", "1/", "/1", "1/2/1"],
+        between_alphabet: &['f', 'i', ' '],
+        between_max: 1,
+        second_fractions: if thorough { &["", "1/2", "21/11"] } else { &["", "1/2", "1/2fi"] },
+        tails: if thorough { &["", "fi"] } else { &[""] },
+    }
+}
+
+fn chars_over(alphabet: &[char], maxlen: usize) -> Vec<String> {
+    let mut out = vec![String::new()];
+    let mut level = vec![String::new()];
+    for _ in 0..maxlen {
+        let mut next = Vec::new();
+        for s in &level {
+            for &c in alphabet {
+                let mut t = s.clone();
+                t.push(c);
+                next.push(t);
+            }
+        }
+        out.extend(next.iter().cloned());
+        level = next;
+    }
+    out
+}
+
+/// every text prefix + fraction + between + second fraction + tail of the bounds (distinct texts, sorted); also the size of the product
+fn frac_texts(b: &FracBounds) -> (Vec<Vec<char>>, usize) {
+    let prefixes = chars_over(b.prefix_alphabet, b.prefix_max);
+    let betweens = chars_over(b.between_alphabet, b.between_max);
+    let mut set: std::collections::BTreeSet<String> = std::collections::BTreeSet::new();
+    let mut product = 0usize;
+    for p in &prefixes {
+        for f in b.fractions {
+            for m in &betweens {
+                for g in b.second_fractions {
+                    for t in b.tails {
+                        product += 1;
+                        set.insert(format!("{}{}{}{}{}", p, f, m, g, t));
+                    }
+                }
+            }
+        }
+    }
+    (set.into_iter().map(|s| s.chars().collect()).collect(), product)
+}
+
+/// the class "frac"; returns its entry for the bounds record
+fn run_frac(ctx: &Ctx, thorough: bool) -> (usize, J) {
+    let progs = cat_frac(thorough);
+    {
+        let mut names: Vec<&str> = progs.iter().map(|p| p.name.as_str()).collect();
+        names.sort();
+        let n = names.len();
+        names.dedup();
+        assert_eq!(n, names.len(), "machinery: frac program names are not unique");
+    }
+    let b = frac_bounds(thorough);
+    let (texts, product) = frac_texts(&b);
+    let results: Vec<(Acc, [u64; 3])> = progs.par_iter().map(|p| run_frac_prog(Some(ctx), p, thorough, &texts, None)).collect();
+    let mut tallies = [0u64; 3];
+    for (a, t) in results {
+        a.merge_into(ctx);
+        for k in 0..3 {
+            tallies[k] += t[k];
+        }
+    }
+    ctx.bump("frac_cases_with_a_fraction", tallies[0]);
+    ctx.bump("frac_cases_where_text_before_a_fraction_changed_length", tallies[1]);
+    ctx.bump("frac_cases_where_a_fraction_changed_length_before_more_text", tallies[2]);
+    let fractions_in_texts = texts.iter().filter(|t| frac_segments(t).iter().any(|s| s.2)).count();
+    // texts in which digits '/' digits occurs behind a '/' that is not part of a fraction: by the rule taken as given
+    // that later fraction is ordinary text
+    let masked_fractions = texts
+        .iter()
+        .filter(|t| {
+            let segs = frac_segments(t);
+            let last = segs.last().map_or(0, |s| if s.2 { t.len() } else { s.0 });
+            (last..t.len()).any(|k| t[k] == '/' && k > last && t[k - 1].is_ascii_digit() && k + 1 < t.len() && t[k + 1].is_ascii_digit())
+        })
+        .count();
+    let s = |v: &[char]| v.iter().map(|c| c.to_string()).collect::<Vec<_>>();
+    (
+        progs.len(),
+        json!({
+            "programs": progs.len(),
+            "lookup_lists": progs.iter().map(|p| p.name.clone()).collect::<Vec<_>>(),
+            "lookup_letters": {"C": "ccmp multiple a>a.base a.top", "D": "ccmp multiple a>a.base a.top, two>two two.c", "L": "liga ligature f f i>f_f_i, f i>f_i",
+                "S": "frac single one>one.numr two>two.numr slash>fraction", "G": "frac ligature one one>one_one", "M": "frac multiple two>two two.b", "N": "numr single one<>two"},
+            "text": "prefix + fraction + between + second fraction + tail",
+            "prefix": {"alphabet": s(b.prefix_alphabet), "max_length": b.prefix_max}, "fraction": b.fractions,
+            "between": {"alphabet": s(b.between_alphabet), "max_length": b.between_max}, "second_fraction": b.second_fractions, "tail": b.tails,
+            "texts_in_product": product, "distinct_texts": texts.len(), "distinct_texts_with_a_fraction": fractions_in_texts,
+            "distinct_texts_with_digits_slash_digits_behind_a_slash_that_is_not_in_a_fraction": masked_fractions,
+            "feature_masks": FRAC_MODES.iter().map(|m| m.id()).collect::<Vec<_>>(),
+            "seams": ["gsub::apply Mask (all three masks)", "Font::map_glyphs + Font::shape Mask (default|FRAC)"],
+            "programs_at_the_font_seam": progs.iter().filter(|p| thorough || p.shape_quick).count(),
+        }),
+    )
+}
+
+fn replay_frac(r: &J) -> Result<(), String> {
+    let name = r["program"].as_str().ok_or("no program")?;
+    let text: Vec<char> = r["text"].as_str().ok_or("no text")?.chars().collect();
+    let mode = r["mask"].as_str().and_then(FracMode::from_id).ok_or("unknown mask")?;
+    let seam = match r["seam"].as_str() {
+        Some("mask") => Seam::Mask,
+        Some("shape") => Seam::Shape,
+        _ => return Err("unknown seam".into()),
+    };
+    let thorough = r["thorough"].as_bool().unwrap_or(false);
+    let p = cat_frac(thorough).into_iter().find(|p| p.name == name).ok_or_else(|| format!("program {:?} is not in the frac catalogue", name))?;
+    let (acc, _) = run_frac_prog(None, &p, thorough, &[text], Some((mode, seam)));
+    if acc.viol.is_empty() {
+        Ok(())
+    } else {
+        Err(acc.viol.iter().map(|(k, (n, _))| format!("{} (x{})", k, n)).collect::<Vec<_>>().join(", "))
+    }
+}
+
+// ---------------------------------------------------------------------------------------------------
 // entry points
 // ---------------------------------------------------------------------------------------------------
 
@@ -1847,9 +2504,12 @@ pub fn run(ctx: &Ctx) {
          seam, variation tuple, glyph string over {a,b,L,m1,m2} up to the length bound); every leaf runs the real allsorts code and is \
          compared with the reference interpreter on glyph ids, unicodes, LIGATURE / MULTI_SUBST_DUP flags and liga_component_pos of marks. \
          A (program, tuple, string) is non-trivial when the reference interpreter changed the run or a ligature / context match spanned a \
-         skipped glyph; outcomes are distinct observed output runs.",
+         skipped glyph; outcomes are distinct observed output runs. Class \"frac\": leaf = (lookup list over ccmp / liga / frac / numr lookups, \
+         feature mask default / default|FRAC / FRAC, seam, text = prefix + fraction + between + second fraction + tail over {f,i,a,space,1,2,/}); the reference \
+         cuts the text at ASCII fractions and interprets every piece on its own; non-trivial when the reference changed the run.",
     );
-    ctx.assume("requiredFeatureIndex = 0xFFFF in all generated LangSys tables; one script record (DFLT unless stated); feature tags calt, liga, rvrn ('fina', 'vert', 'vrt2', 'frac', which gsub_apply_custom / the Mask path treat specially, are excluded)");
+    ctx.assume("requiredFeatureIndex = 0xFFFF in all generated LangSys tables; one script record (DFLT unless stated); feature tags calt, liga, rvrn, and ccmp / frac / numr in the class \"frac\" ('fina', 'vert', 'vrt2', which gsub_apply_custom / the Mask path treat specially, are excluded; 'frac' is excluded from Features::Custom only, where allsorts gives it no special treatment)");
+    ctx.assume("class \"frac\": with FeatureMask::FRAC in a Features::Mask the default shaper deliberately restricts the lookups of 'frac' to ASCII fractions; that segmentation rule is taken as given (scanning the characters the glyphs came from: the first '/' of the remaining text with the maximal ASCII digit runs on both sides, both non-empty, is a fraction, the search continues behind it; when the first '/' is not inside a fraction the rest of the run holds no fraction). Demanded: every piece gets exactly what the specification prescribes for its feature set (fraction: all features of the mask the language system lists, FRAC standing for the tag 'frac' alone; other text: the same without 'frac'), whatever the substitutions did to the length of the pieces before it; without FRAC in the mask, or without 'frac' in the language system, the whole run gets the plain semantics. The lookups of the class are single / multiple / ligature substitutions that cannot see across a cut, so the piece-wise reference is exact");
     ctx.assume("'rvrn' lookups are applied before the lookups of all other features (feature registry: 'should be processed early'; HarfBuzz applies it as a separate first stage), otherwise enabled lookups run in LookupList order whatever the order of features in the FeatureList, the LangSys or the caller's list and whatever the order of indices in a feature table");
     ctx.assume("backtrack sequences / coverages are stored closest glyph first (all implementations); a nested lookup is applied once at its sequence position without testing that glyph against the nested lookup's flags (HarfBuzz), its flags govern the following glyphs; ReverseChainSingleSubst and alternates other than the first are not nested");
     ctx.assume("after a nested lookup changed the length of the run (or turned a matched glyph into one the parent lookup skips) both the literal reading (sequenceIndex counts the non-skipped glyphs of the current matched input) and HarfBuzz's match-position bookkeeping are accepted; the walk resumes after the matched input corrected by the net length change; when a nested lookup consumed glyphs beyond the matched input both resuming at the glyph it was applied to (HarfBuzz) and after that glyph (literal: it belongs to the matched input) are accepted");
@@ -1878,23 +2538,28 @@ pub fn run(ctx: &Ctx) {
     for a in accs {
         a.merge_into(ctx);
     }
+    let (frac_programs, frac_bounds) = run_frac(ctx, thorough);
+    by_class.insert("frac", frac_programs as u64);
     ctx.set(
         "bounds",
         json!({
-            "programs": progs.len(), "programs_by_class": by_class, "alphabet": ["a", "b", "L", "m1", "m2"],
+            "programs": progs.len() + frac_programs, "programs_by_class": by_class, "frac": frac_bounds, "alphabet": ["a", "b", "L", "m1", "m2"],
             "lookup_flag_settings": flags27().iter().map(|f| f.0.clone()).collect::<Vec<_>>(),
             "max_string_length": {"single": if thorough { 5 } else { 4 }, "ctxflags": if thorough { 5 } else { 4 },
                 "nest (one nested lookup / depth)": if thorough { 5 } else { 4 }, "nest (two records)": if thorough { 4 } else { 3 },
                 "pair": if thorough { 4 } else { 3 }, "reach (alphabet a,b,m1)": if thorough { 8 } else { 7 }, "shared (one lookup)": if thorough { 5 } else { 4 }, "shared (two / three lookups)": if thorough { 4 } else { 3 }, "variations": if thorough { 3 } else { 2 }, "misc": if thorough { 4 } else { 3 }},
             "encodings": if thorough { "single/ctxflags(all indices)/misc(wrap): 7 (<= 2 non-default of Coverage 2, ClassDef 1, Extension); nest(one record)/variations: default + Extension; others: default" } else { "single/ctxflags(all indices) with one of the 8 single flag settings, misc(wrap): 7 (<= 2 non-default of Coverage 2, ClassDef 1, Extension); nest(one record, flag 0)/variations: default + Extension; others: default" },
             "nesting_depth": 5, "pair_bundles": pair_bundles(thorough).len(), "pair_configurations": pair_configs().len(),
-            "seams": ["gsub::apply Custom", "gsub::apply Mask", "Font::shape"],
+            "seams": ["gsub::apply Custom", "gsub::apply Mask", "Font::shape"], "classes": ["single", "ctxflags", "nest", "pair", "shared", "reach", "variations", "misc", "frac"],
         }),
     );
 }
 
 pub fn replay(w: &J) -> Result<(), String> {
     let r = &w["replay"];
+    if r["class"].as_str() == Some("frac") {
+        return replay_frac(r);
+    }
     let name = r["program"].as_str().ok_or("witness carries no replay record")?;
     let thorough = r["thorough"].as_bool().unwrap_or(false);
     let glyphs: Vec<G> = r["glyphs"].as_array().ok_or("no glyphs")?.iter().map(|v| v.as_u64().unwrap_or(0) as G).collect();
